@@ -1,6 +1,7 @@
 import PysnarkModel.Lemmas.BranchBasic
 import PysnarkModel.Lemmas.FxpValues
 import PysnarkModel.Lemmas.Triple
+import PysnarkModel.Lemmas.IteTag
 /-!
 # Block branching: what the operators return, whatever the guard is and while it is true
 
@@ -136,7 +137,7 @@ theorem cmpV_int_all {op : Cmp} {x y : Val} (hx : IsIntV x) (hy : IsIntV y)
     · exact (raise_ok.mp h).elim
     · obtain ⟨sm, r, rfl, hb, vr⟩ := cmpLV_int_all (o := .int _) trivial h
       exact ⟨sm, r, rfl, hb, fun hl => by rw [vr hl, cmpSem_mirror]; rfl⟩
-  · exact cmpLV_int_all hy h
+  · cases y <;> simp only [IsIntV] at hy <;> simp only at h <;> exact cmpLV_int_all trivial h
 end
 
 /-- two `LinComb`s compared through the gadgets (`LinCombFxp.__lt__` … after `_ensurefxp`) -/
@@ -353,25 +354,41 @@ theorem bwV_bool {s s' : St} {op : BW} {x y : LinComb} {v : Val} (hop : op = .an
     obtain ⟨sm2, rfl, hb⟩ := mkBool_val h2
     exact ⟨sm1.trans sm2, _, rfl, hb, by simp only [sub_value, add_value, vp]⟩
 
+/-- `iteScalar` on two booleans is one multiplication followed by `LinCombBool(ret, False)` -/
+theorem iteScalar_bb (c x y : LinComb) : iteScalar c (.lcb x) (.lcb y) = iteBB c x y := by
+  rw [← iteScalarArm_bb]
+  rfl
+
 /-- the scalar arm of `if_then_else`: `falsev + cond * (truev - falsev)` on the numbers; the result
-is never a `LinCombBool` -/
+is a `LinCombBool` exactly when both branches are, and then it holds 0 or 1 (the constructor tests it) -/
 theorem iteScalar_rep {s s' : St} {c : LinComb} {t f r : Val} (ht : t.isS) (hf : f.isS)
     (h : iteScalar c t f s = .ok (r, s')) :
-    Same s s' ∧ r.isS ∧ (∀ l, r ≠ .lcb l) ∧
-      rep s.resolution r = rep s.resolution f + c.value * (rep s.resolution t - rep s.resolution f) := by
+    Same s s' ∧ r.isS ∧ (∀ l, r = .lcb l → BoolLC l) ∧
+      rep s.resolution r = rep s.resolution f + c.value * (rep s.resolution t - rep s.resolution f) ∧
+      ((∃ l, r = .lcb l) ↔ bothLcb t f = true) := by
+  by_cases hbb : bothLcb t f = true
+  · cases t <;> cases f <;> simp only [bothLcb, reduceCtorEq] at hbb
+    rename_i x y
+    rw [iteScalar_bb] at h
+    obtain ⟨pr, s1, h1, h2, rfl, hb⟩ := iteBB_ok h
+    obtain ⟨sm1, vp⟩ := mulLL_val h1
+    obtain ⟨sm2, -, -⟩ := mkBool_val h2
+    refine ⟨sm1.trans sm2, trivial, fun l hl => ?_, ?_, ⟨fun _ => rfl, fun _ => ⟨_, rfl⟩⟩⟩
+    · cases hl; exact hb
+    · simp only [rep, add_value, vp, neg_value]; ring
   unfold iteScalar at h
   obtain ⟨f', s1, h1, k1⟩ := bind_ok.mp h
   clear h
-  have hf' : s1 = s ∧ f'.isS ∧ rep s.resolution f' = rep s.resolution f := by
+  have hf' : s1 = s ∧ f'.isS ∧ rep s.resolution f' = rep s.resolution f ∧ bothLcb t f' = false := by
     unfold coerceF at h1
     cases t <;> simp only at h1
     all_goals first
-      | (obtain ⟨rfl, rfl⟩ := pure_ok' h1; exact ⟨rfl, hf, rfl⟩)
+      | (obtain ⟨rfl, rfl⟩ := pure_ok' h1; exact ⟨rfl, hf, rfl, by simpa using hbb⟩)
       | (obtain ⟨y, s0, h0, h1⟩ := bind_ok.mp h1
          obtain ⟨rfl, rfl⟩ := pure_ok' h1
          obtain ⟨rfl, vy⟩ := ensurefxp_val h0
-         exact ⟨rfl, trivial, vy⟩)
-  obtain ⟨hs1, hfs, vf'⟩ := hf'
+         exact ⟨rfl, trivial, vy, rfl⟩)
+  obtain ⟨hs1, hfs, vf', hnb⟩ := hf'
   rw [hs1] at k1
   clear h1 hs1
   obtain ⟨d, s2, h2, k2⟩ := bind_ok.mp k1
@@ -382,9 +399,14 @@ theorem iteScalar_rep {s s' : St} {c : LinComb} {t f r : Val} (ht : t.isS) (hf :
   obtain ⟨p, s3, h3, k3⟩ := bind_ok.mp k2
   clear k2
   obtain ⟨sm, hp, -, vp⟩ := mulLV_rep hd h3
-  obtain ⟨hs3, hr, hk, vr⟩ := addV_rep hfs hp k3
+  obtain ⟨ret, s4, h4, k4⟩ := bind_ok.mp k3
+  clear k3
+  obtain ⟨hs3, hr, hk, vr⟩ := addV_rep hfs hp h4
+  -- not two booleans: the value is returned as it is
+  rw [iteTag_other _ hnb] at k4
+  obtain ⟨rfl, rfl⟩ := pure_ok' k4
   rw [hs3]
-  refine ⟨sm, hr, hk, ?_⟩
+  refine ⟨sm, hr, fun l hl => (hk l hl).elim, ?_, ⟨fun ⟨l, hl⟩ => (hk l hl).elim, fun hb => absurd hb hbb⟩⟩
   rw [sm.res] at vr
   rw [vr, vp, vd, vf']
 
